@@ -4,6 +4,8 @@
 package snaps
 
 import (
+	"time"
+	"errors"
 	"math/big"
 	"github.com/gkampitakis/go-snaps/match"
 	"encoding/json"
@@ -137,6 +139,23 @@ type c14Ledger struct {
 	Rate   big.Float
 }
 
+type c14APIError struct {
+	Code    int    `json:"code"`
+	Message string `json:"message"`
+}
+
+func (e c14APIError) Error() string { return fmt.Sprintf("api: %d %s", e.Code, e.Message) }
+
+type c14FieldErrors []c14APIError
+
+func (e c14FieldErrors) Error() string { return fmt.Sprintf("%d field errors", len(e)) }
+
+// c14Level: a Stringer and TextMarshaler (used as a value and as a map key)
+type c14Level int
+
+func (l c14Level) String() string               { return fmt.Sprintf("level-%d", int(l)) }
+func (l c14Level) MarshalText() ([]byte, error) { return []byte(l.String()), nil }
+
 type namedString string
 type namedBytes []byte
 
@@ -191,6 +210,11 @@ func checkC14(c c14Case) error {
 		map[string]any{"status": "ok", "rows": []any(nil)}, map[string]any{"meta": map[string]any(nil), "tags": []string(nil)},
 		[]any{[]any(nil), map[string]any(nil), (*int)(nil), []any{}, map[string]any{}}, []any(nil), map[string]any(nil),
 		map[string]any{"deep": []any{map[string]any{"rows": []any(nil), "empty": []any{}}}},
+		// values that happen to implement error (API error bodies, validation results): JSON encoding does not care
+		c14APIError{Code: 404, Message: "user not found"}, &c14APIError{Code: 500, Message: "boom"}, c14FieldErrors{{Code: 1, Message: "a"}, {Code: 2, Message: "b"}},
+		errors.New("plain error"), fmt.Errorf("wrapped: %w", errors.New("inner")), map[string]any{"error": c14APIError{Code: 1, Message: "nested"}},
+		// fmt.Stringer / encoding.TextMarshaler values, time values
+		c14Level(2), map[c14Level]string{1: "one"}, []any{c14Level(3), time.Date(2026, 1, 2, 3, 4, 5, 6, time.UTC), time.Duration(1500)},
 		unsortedFields{Zeta: 6, Mid: map[string]any{}}, struct {
 			Rows []int          `json:"rows"`
 			Opt  *int           `json:"opt"`
@@ -367,6 +391,38 @@ func checkC14Body(c c14Case, compact string) error {
 		es, _ := refParse(readFile(filepath.Join(root, spec.multiPath())))
 		if len(es) != 1 || string(es[0].ID) != entryID(c.Test, 2) {
 			return fmt.Errorf("the failing call must consume its ordinal: second call should create %q, file has %s", entryID(c.Test, 2), describeEntries(es))
+		}
+	}
+	// (5) invalid input when the slot already holds the valid document (a later run: the fixture got a stray brace, a second
+	// document was appended, a colon was lost): rejected in every mode, also when updating is enabled - nothing is written
+	root5 := scratchDir()
+	defer os.RemoveAll(root5)
+	newProcess(Mode{})
+	ft5 := newFakeT(c.Test)
+	if r0 := (Call{API: c.API, Doc: BS(compact), Form: "string"}).invoke(spec.build(root5), ft5); len(r0.Errors) != 0 {
+		return fmt.Errorf("harness: storing the valid document: %q", clipAll(r0.Errors))
+	}
+	ft5.finish()
+	lateInvalid := []string{compact + "}", compact + "]", compact + " " + compact, compact + " trailing", string(c.Invalid)}
+	if i := strings.Index(compact, `":`); i >= 0 {
+		lateInvalid = append(lateInvalid, compact[:i+1]+" "+compact[i+2:]) // the first colon is lost
+	}
+	pick := lateInvalid[(len(compact)+len(c.Test))%len(lateInvalid)]
+	if json.Valid([]byte(pick)) {
+		return nil
+	}
+	for _, mode := range []Mode{{}, {Update: "true"}, {CI: true}} {
+		newProcess(mode)
+		ageDir(root5)
+		pre := snapDir(root5)
+		ft5 = newFakeT(c.Test)
+		r5 := Call{API: c.API, Doc: BS(pick), Form: c.InvForm}.invoke(spec.build(root5), ft5)
+		ft5.finish()
+		if out, oerr := outcomeOf(r5); oerr != nil || out != oFailed {
+			return fmt.Errorf("input %q is not valid JSON; with the valid document %q already stored (mode %+v) the call ended as %q (%v)", clip(pick), clip(compact), mode, out, oerr)
+		}
+		if d := diffDirs(pre, snapDir(root5), true); d != "" {
+			return fmt.Errorf("invalid input %q (valid document already stored, mode %+v) wrote: %s", clip(pick), mode, d)
 		}
 	}
 	return nil
